@@ -380,6 +380,11 @@ func init() {
 			for _, s := range []string{"fn0_counter:z", "fn0_uf:z", "const_int:z", "const_string:z", "fn1:z:a::int>int", "fn1:a:a::int>float", "fn2:z:a:b:int", "fn1:z:s::string>string", "copy:z:b", "upper:z:s", "fn1:z:e::string>int"} {
 				jobs = append(jobs, Job{Harness: "VX_C06_apply", Params: P("steps", s, "mode", "apply", "n", "3", "P", "3")})
 			}
+			// enum values that differ only in case, built-in ToUpper, full-length and partial frames
+			for _, np := range [][2]string{{"3", "3"}, {"2", "3"}} {
+				jobs = append(jobs, Job{Harness: "VX_C06_apply", Params: P("steps", "upper:z:e", "mode", "apply", "n", np[0], "P", np[1], "dup", "1")})
+				jobs = append(jobs, Job{Harness: "VX_C06_apply", Params: P("steps", "upper:e:e", "mode", "apply", "n", np[0], "P", np[1], "dup", "1")})
+			}
 			jobs = append(jobs, Job{Harness: "VX_C06_apply", Params: P("steps", "", "mode", "rownums", "n", "3", "P", "3")})
 			// user functions that may hand back their own argument (string and enum sources, one and two arguments)
 			for _, src := range []string{"s", "e"} {
